@@ -77,6 +77,10 @@ def _constraint_sets(inst, cyc):
         if set(map(tuple, c1)) & set(map(tuple, c2)):
             sets.append([c1, c2])  # overlapping
             break
+    if not cyc:
+        full = [O.path_arcs(p) for p in paths if len(p) >= 3]
+        if 2 <= len(full) <= 6:
+            sets.append(full)  # every source-sink route as a constraint: forces all of them into the solution
     if allc:
         sets.append([allc[0], allc[0]])  # duplicated
         if len(allc) >= 2:
@@ -172,7 +176,7 @@ def run(case):
         light = case.get("light")
         csets = _constraint_sets(inst, cyc)
         if light:
-            csets = [c for c in csets if len(c) == 1]
+            csets = [c for c in csets if len(c) == 1 or len(c) > 2]
         for cset in csets:
             variants = [(cov, None) for cov in ((1.0, 0.6, 0.5, 0.34) if not light else (1.0, 0.6))]
             if not cyc and not light:
